@@ -97,6 +97,8 @@ class SymbolDBPersistor(ISymbolDBPersistor):
 		filepath = self._gen_filepath(module)
 		if self._can_restore(module, filepath):
 			self._restore(db, filepath)
+			# XXX シンボルが1つも無いモジュール(空のファイル等)はインポートだけでは完了扱いにならないため、明示的に完了を通知
+			db.on_complete(module.path)
 
 	def _gen_filepath(self, module: Module) -> str:
 		"""保存ファイルの絶対パスを生成
